@@ -201,7 +201,7 @@ def write_header(entries, layout, eng=None, concrete=False):
                 o.bits(ef)
         if layout.get("dummy") is not None:
             o.byte(K["DUMMY"])
-            o.byte(layout["dummy"])  # raw size byte, as 7-Zip writes it
+            o.items.extend(number_bytes(layout["dummy"]))  # the size is a NUMBER (one raw byte below 128, as 7-Zip writes it)
             o.items.extend([0] * layout["dummy"])
         names = b"".join(e["name"].encode("utf-16LE") + b"\x00\x00" for e in entries)
         o.byte(K["NAMES"])
